@@ -274,6 +274,14 @@ def exec_step(step, sess, chains, audit):
                 for x in list(v.values()):
                     poison(x, depth + 1)
                 v['POISON'] = 1
+            elif type(v).__module__.endswith('lab.runtime') and hasattr(v, '__dict__'):
+                # a parameter OBJECT of config 1 changes its state (a model that was trained, a counter): objects of other configs are other objects
+                for attr_ in ('a', 'x', '_root'):
+                    if hasattr(v, attr_):
+                        try:
+                            setattr(v, attr_, 'POISONED STATE')
+                        except Exception:
+                            pass
         for cfg in ch1._configs.values():
             for k, v in cfg.data.items():
                 if k not in ('tasks', 'uses', 'excluded_tasks', 'for_namespaces'):
